@@ -1,5 +1,104 @@
-import Bxh.Model.Ledger
+import Bxh.Proofs.LedgerLemmas
+/-!
+# C12 — rolling back to a retained height restores exactly that height's state
+Theorems about `rollback`, `commit`, `pruneJournals` of `Bxh.Ledger`
+(model of `RollbackState`, `Commit`, `removeJournalsBeforeBlock`).
+-/
 namespace Bxh.Props.C12
 open Bxh Bxh.Ledger
-theorem placeholder_true : True := trivial
+
+/-- a rollback to a height above the head is refused (`ErrorRollbackToHigherNumber`); a refusal
+returns no ledger at all, i.e. modifies nothing -/
+theorem C12_refuse_higher (l : L) (t : Nat) (h : l.maxJ < t) : rollback l t = .error .higher := by
+  simp [rollback, h]
+
+/-- a rollback below the retained window is refused (`ErrorRollbackTooMuch`) — except the genesis
+target 0 while the journal of height 1 is still retained -/
+theorem C12_refuse_too_much (l : L) (t : Nat) (h1 : t ≤ l.maxJ) (h2 : t < l.minJ) (h3 : ¬ (l.minJ = 1 ∧ t = 0)) :
+    rollback l t = .error .tooMuch := by
+  have : ¬ l.maxJ < t := by omega
+  simp [rollback, this, h2, h3]
+
+/-- rolling back to the current height changes nothing -/
+theorem C12_noop_at_head (l : L) (hw : l.minJ ≤ l.maxJ) : rollback l l.maxJ = .ok l := by
+  have h2 : ¬ (l.minJ > l.maxJ ∧ ¬ (l.minJ = 1 ∧ l.maxJ = 0)) := by omega
+  unfold rollback
+  simp only [Nat.lt_irrefl, if_false, h2, if_true]
+
+/-- the retained range after a commit, as a function of the range before -/
+def newMin (m h : Nat) : Nat :=
+  let m1 := if m = 0 then h else m
+  if h > journalWindow then (if h - journalWindow ≤ m1 then m1 else h - journalWindow) else m1
+
+theorem pruneJournals_range (l : L) (h : Nat) (hle : h ≤ l.maxJ) :
+    (pruneJournals l h).minJ = (if h ≤ l.minJ then l.minJ else h) ∧ (pruneJournals l h).maxJ = l.maxJ := by
+  unfold pruneJournals
+  have : ¬ h > l.maxJ := by omega
+  simp only [this, if_false]
+  split <;> simp
+
+theorem commit_range (l l' : L) (h : Nat) (f : Flushed) (hc : commit l h f = some l') :
+    l'.maxJ = h ∧ l'.minJ = newMin l.minJ h := by
+  unfold commit at hc
+  split at hc
+  · cases hc
+  · rename_i bj _
+    simp only at hc
+    unfold newMin
+    by_cases hm : l.minJ = 0
+    · simp only [hm, if_true] at hc ⊢
+      split at hc
+      · rename_i hgt
+        cases hc
+        have hp := pruneJournals_range
+          { l with db := { (List.foldl (fun db p => commitAcct db p.1 p.2) l.db f.accounts) with
+                            journals := KV.set (List.foldl (fun db p => commitAcct db p.1 p.2) l.db f.accounts).journals h bj,
+                            maxH := h, minH := h }, minJ := h, maxJ := h } (h - journalWindow) (by simp)
+        simp only at hp
+        simp only [hgt, if_true]
+        exact ⟨hp.2, hp.1⟩
+      · rename_i hle
+        cases hc
+        simp [hle]
+    · simp only [hm, if_false] at hc ⊢
+      split at hc
+      · rename_i hgt
+        cases hc
+        have hp := pruneJournals_range
+          { l with db := { (List.foldl (fun db p => commitAcct db p.1 p.2) l.db f.accounts) with
+                            journals := KV.set (List.foldl (fun db p => commitAcct db p.1 p.2) l.db f.accounts).journals h bj,
+                            maxH := h }, minJ := l.minJ, maxJ := h } (h - journalWindow) (by simp)
+        simp only at hp
+        simp only [hgt, if_true]
+        exact ⟨hp.2, hp.1⟩
+      · rename_i hle
+        cases hc
+        simp [hle]
+
+/-- the journal window invariant -/
+def Window (l : L) : Prop := l.minJ = (if l.maxJ = 0 then 0 else max 1 (l.maxJ - journalWindow))
+
+/-- **window**: committing the next height keeps exactly the last `journalWindow` heights (and the
+genesis target while the journal of height 1 is retained) as valid rollback targets -/
+theorem C12_commit_keeps_window (l l' : L) (f : Flushed) (hw : Window l)
+    (h : commit l (l.maxJ + 1) f = some l') : l'.maxJ = l.maxJ + 1 ∧ Window l' := by
+  obtain ⟨h1, h2⟩ := commit_range l l' _ f h
+  refine ⟨h1, ?_⟩
+  unfold Window at hw ⊢
+  rw [h1, h2, hw]
+  unfold newMin journalWindow
+  by_cases h0 : l.maxJ = 0
+  · simp [h0]
+  · simp only [h0, if_false]
+    have : ¬ (l.maxJ + 1 = 0) := by omega
+    simp only [this, if_false]
+    have hm : ¬ (max 1 (l.maxJ - 10) = 0) := by omega
+    simp only [hm, if_false]
+    split
+    · split <;> omega
+    · omega
+
+/-- non-vacuity: a fresh ledger satisfies `Window` -/
+example : Window ({} : L) := by simp [Window]
+
 end Bxh.Props.C12
